@@ -22,6 +22,9 @@
            1000, 1400, whose echo id is solved (Sub1c) so that the total one's-complement sum is a prescribed critical
            value (tiny, negative zero, byte swaps): the totals on which an implementation that adds the pseudo-header
            words separately and folds once too few goes wrong
+     long  strings longer than a datagram (65 535 .. 200 001 bytes): the statement quantifies over every byte string.
+           TLC decides with WrapLemma which of them the library as written can get right (no uint32 overflow) and
+           exports the number of overflows `w` with the expected bytes
      pair6 the same message as echo6, to be sent directly after one other transmission (`pre`): Stored is a function of
            the bytes alone, so the expected bytes do not depend on what the session sent before (the transmit buffers
            are pooled; the echo message is the only ICMPv6 message of odd length) *)
@@ -31,7 +34,9 @@ CONSTANTS RawMax,      \* 0..2
           RawStride,   \* length-2 strings <<x, y>> are emitted when (x*256+y) % RawStride = 0 or x,y are boundary bytes
           PatLens,     \* set of lengths for the pattern family
           AllPosUpTo,  \* lengths <= AllPosUpTo perturb every word position, longer ones the first / last four
-          Families     \* subset of {"raw", "pat", "hdr", "echo4", "echo6", "pair6", "fold", "crit6"}
+          WideAcc,     \* FALSE: the library accumulates in a uint32 as written (Acc32 / WrapLemma); TRUE: repaired (64 bit)
+          LongMode,    \* "none" | "quick" | "thorough": which long strings (family long) are enumerated
+          Families     \* subset of {"raw", "pat", "hdr", "echo4", "echo6", "pair6", "fold", "crit6", "long"}
 
 VARIABLE d
 
@@ -101,6 +106,12 @@ FoldBytes(x) == [i \in 1..x.n |-> IF i > 2 * (x.n \div 2) THEN 0
                                  ELSE IF i % 2 = 1 THEN FoldWord(x, (i + 1) \div 2) \div 256
                                  ELSE FoldWord(x, i \div 2) % 256]
 
+\* ---- long strings <<length, carrier>>: carrier 1 = all 0xff (largest sum), 4 = scrambled
+LongQuick    == {<<65537, 4>>, <<131074, 1>>, <<131076, 1>>}
+LongThorough == LongQuick \cup {<<65535, 4>>, <<65536, 4>>, <<65536, 1>>, <<131072, 4>>, <<131075, 1>>, <<200001, 1>>, <<200001, 4>>}
+LongSet == {[k |-> "long", n |-> x[1], car |-> x[2], pos |-> 0, val |-> 0] :
+              x \in (IF LongMode = "quick" THEN LongQuick ELSE IF LongMode = "thorough" THEN LongThorough ELSE {})}
+
 \* ---- critical totals of the ICMPv6 pseudo-header sum
 CritData == {190, 191, 247, 248, 446, 503, 992, 1392}
 CritTotals == {1, 2, 255, 256, 512, 32768, 65023, 65279, 65534, 65535}
@@ -113,6 +124,7 @@ Pair6Set == {[k |-> "pair6", n |-> id, car |-> 1, pos |-> pf, val |-> ap[1] * 16
                id \in {1, 4660, 65535}, pf \in 1..Len(PreFns), ap \in V6Pairs}
 
 Descriptors ==
+  (IF "long" \in Families THEN LongSet ELSE {}) \cup
   (IF "fold" \in Families THEN FoldVecSet ELSE {}) \cup (IF "crit6" \in Families THEN Crit6Set ELSE {}) \cup
   (IF "pair6" \in Families THEN Pair6Set ELSE {}) \cup
   (IF "raw" \in Families THEN RawSet ELSE {}) \cup (IF "pat" \in Families THEN PatSet ELSE {}) \cup
@@ -154,7 +166,7 @@ CritBytes(x) ==
 
 Bytes(x) ==
   CASE x.k = "raw" -> IF x.n = 0 THEN <<>> ELSE IF x.n = 1 THEN <<x.pos>> ELSE <<x.pos, x.val>>
-    [] x.k = "pat" -> PatBytes(x)
+    [] x.k \in {"pat", "long"} -> PatBytes(x)
     [] x.k = "hdr" -> HdrBytes(x)
     [] x.k = "fold" -> FoldBytes(x)
     [] x.k = "crit6" -> CritBytes(x)
@@ -164,13 +176,15 @@ Bytes(x) ==
 
 \* ------------------------------------------------------------------ per-vector lemmas
 SplitPoints(n) == IF n <= 24 THEN 0..n
+                  ELSE IF n > 4096 THEN {1, 65535, n - 1}
                   ELSE {k \in {0, 1, 2, 3, n \div 2, n \div 2 + 1, n - 3, n - 2, n - 1, n} : k >= 0 /\ k <= n}
-EvenOffsets(n) == IF n <= 24 THEN 0..n ELSE {0, 2, 10, 42, n - 3, n - 2}
+EvenOffsets(n) == IF n <= 24 THEN 0..n ELSE IF n > 4096 THEN {n - 3, n - 2} ELSE {0, 2, 10, 42, n - 3, n - 2}
 
 Lemmas ==
   LET b == Bytes(d) \o <<>>
       n == Len(b)
-  IN  /\ MechConforms(b)
+  IN  /\ d.k # "long" => MechConforms(b)                 \* (the unbounded accumulator of MechAcc exceeds a TLC integer on long strings)
+      /\ (~WideAcc /\ (d.k = "long" \/ n <= 64)) => WrapLemma(b)
       /\ SplitIndependent(b, SplitPoints(n))
       /\ VerifyZero(b, EvenOffsets(n))
       \* the constructions deliver what they promise
@@ -180,7 +194,9 @@ Lemmas ==
 Export ==
   LET b == Bytes(d) \o <<>>
   IN  PrintT(ToJson([k |-> d.k, b |-> b, e |-> Stored(b), pre |-> IF d.k = "pair6" THEN PreFns[d.pos] ELSE "",
-                         fb |-> FoldsNeeded(USum(b)), fm |-> FoldsNeeded(MechAcc(b))]))
+                         fb |-> IF d.k = "long" THEN -1 ELSE FoldsNeeded(USum(b)),
+                         fm |-> IF d.k = "long" THEN -1 ELSE FoldsNeeded(MechAcc(b)),
+                         w |-> IF d.k = "long" /\ ~WideAcc THEN Acc32(b).wraps ELSE 0]))
 
 ASSUME CarryFold(800)
 ASSUME TwoFolds
